@@ -22,7 +22,7 @@ Print Assumptions refused_operations_change_nothing.
 
 Theorem accepted_append_respects_limits : forall i u v, fst (m_append i u v) = 0 ->
   5 <= u <= UNPADDED_MAX /\ v <= VLI_MAX /\
-  uncomp_total (recs (last_stream i)) + v <= VLI_MAX /\
+  uncompressed_size i + v <= VLI_MAX /\
   blocks_size (recs (last_stream i)) + u <= UNPADDED_MAX.
 Proof. exact append_ok_limits. Qed.
 Print Assumptions accepted_append_respects_limits.
@@ -57,3 +57,9 @@ Example locate_example :
   let i := snd (m_append (snd (m_append (snd (m_append m_init 100 1000)) 5 0)) 77 50) in
   option_map b_in_file (locate i 1000) = Some 3 /\ locate i 1050 = None /\ file_size i = 228.
 Proof. vm_compute. repeat split; reflexivity. Qed.
+
+(** every index that can be built with the API has a total uncompressed size that is a valid VLI
+    (what lzma_index_cat's limit check relies on; false for the pinned lzma_index_append, see known_findings) *)
+Theorem total_uncompressed_size_stays_a_vli : forall i, reachable i -> uncompressed_size i <= VLI_MAX.
+Proof. intros i H. exact (proj2 (reachable_total_is_vli i H)). Qed.
+Print Assumptions total_uncompressed_size_stays_a_vli.
